@@ -31,6 +31,12 @@ fn symb_json(chip: &str, n: u32) -> Value {
 }
 
 fn judge_symb(chip: &str, n: u32, decoded: Result<Vec<(&'static str, u32)>, String>) -> Result<(), Failure> {
+    judge_symb_at(chip, n, decoded, &|| symb_json(chip, n), "")
+}
+
+/// the symbol-timeout oracle on decoded values, wherever they were observed
+pub fn judge_symb_at(chip: &str, n: u32, decoded: Result<Vec<(&'static str, u32)>, String>, case: &dyn Fn() -> Value, fp_suffix: &str) -> Result<(), Failure> {
+    let symb_json = |_: &str, _: u32| case();
     let max = if chip.starts_with("sx126") { SX126X_MAX_SYMB } else { SX127X_MAX_SYMB };
     let fam = if chip.starts_with("sx126") { "sx126x" } else { "sx127x" };
     match decoded {
@@ -38,19 +44,19 @@ fn judge_symb(chip: &str, n: u32, decoded: Result<Vec<(&'static str, u32)>, Stri
             if let Some(p) = e.strip_prefix("PANIC ") {
                 Err(panic_failure(symb_json(chip, n), p))
             } else {
-                Err(Failure::new("symb-timeout", symb_json(chip, n), e).with_fp(format!("symb-timeout-error/{fam}")))
+                Err(Failure::new("symb-timeout", symb_json(chip, n), e).with_fp(format!("symb-timeout-error/{fam}{fp_suffix}")))
             }
         }
         Ok(vals) => {
             if vals.is_empty() {
-                return Err(Failure::new("symb-timeout", symb_json(chip, n), "no symbol timeout was programmed").with_fp(format!("symb-timeout-not-programmed/{fam}")));
+                return Err(Failure::new("symb-timeout", symb_json(chip, n), "no symbol timeout was programmed").with_fp(format!("symb-timeout-not-programmed/{fam}{fp_suffix}")));
             }
             for (what, got) in vals {
                 if got < n.min(max) {
-                    return Err(Failure::new("symb-timeout", symb_json(chip, n), format!("requested {n} symbols (chip maximum {max}): {what} decodes to {got} symbols — shorter than requested")).with_fp(format!("symb-timeout-short/{fam}/{what}")));
+                    return Err(Failure::new("symb-timeout", symb_json(chip, n), format!("requested {n} symbols (chip maximum {max}): {what} decodes to {got} symbols — shorter than requested")).with_fp(format!("symb-timeout-short/{fam}/{what}{fp_suffix}")));
                 }
                 if got > max && fam == "sx127x" {
-                    return Err(Failure::new("symb-timeout", symb_json(chip, n), format!("{what} decodes to {got} > 10-bit maximum")).with_fp(format!("symb-timeout-overflow/{fam}")));
+                    return Err(Failure::new("symb-timeout", symb_json(chip, n), format!("{what} decodes to {got} > 10-bit maximum")).with_fp(format!("symb-timeout-overflow/{fam}{fp_suffix}")));
                 }
             }
             Ok(())
